@@ -986,6 +986,10 @@ def _limit_values(F, R):
     from .rules_c02 import _r8_phi_limit, fn as _fn
     from .domains import units, UnitFail
     _r8_phi_limit(F, R)
+    from .rules_c02 import scale_free_guards
+    R.rule("R6s", "the test that selects the lambda^2 -> 0 limit of Phi/lambda^2 compares a scale-free quantity with its pure-number "
+                  "tolerance (lambda^2 of the normalised arguments): the protected window must not shrink like (M/MZ)^-4 for heavy spectra", 1)
+    scale_free_guards(F, R, "R6s", ("Phi_over_lambda_2",), {})
     R.rule("R6", "Phi_over_lambda_2: the limit branch and the generic branch have the same homogeneity degree (-1): a "
                  "normalisation lost in one of them is a jump at lambda^2 = 0", 1)
     f = _fn(F, "Phi_over_lambda_2", 3)
